@@ -98,6 +98,9 @@ type reqT struct {
 type caseT struct {
 	regs []regT
 	reqs []reqT
+	// after[i] = number of Handle calls made before request i is served (registration and
+	// serving alternate, never overlap); nil = the whole table first
+	after []int
 }
 
 var (
@@ -349,6 +352,18 @@ func genCaseN(s source, minReq, maxReq int) caseT {
 		p := dirtyPath(s, segs)
 		q := []string{"", "", "", "", "", "a=b", "p=/a/b/../c&v0=x", "/a"}[s.intn(8, "query")]
 		c.reqs = append(c.reqs, reqT{method, p, q})
+	}
+	// phased use: a router that has already served requests (misses included) is extended and
+	// serves again; every request is judged against the table as it is when it is served
+	if len(c.regs) > 0 && s.intn(4, "phased") != 0 {
+		c.after = make([]int, len(c.reqs))
+		for i := range c.after {
+			if s.intn(3, "afterAll") == 0 {
+				c.after[i] = len(c.regs)
+			} else {
+				c.after[i] = s.intn(len(c.regs)+1, "after")
+			}
+		}
 	}
 	return c
 }
@@ -785,24 +800,23 @@ func (h *harness) serve(m *model, rq reqT, fail failFn) reqInfo {
 func runCase(c caseT, st *verifkit.Stats, fail failFn) (table string, nt []string) {
 	h := newHarness()
 	m := &model{}
-	for i, rg := range c.regs {
-		ok := h.register(m, i, rg, fail)
-		switch {
-		case ok:
-			st.Class("reg:accepted")
-			if joinSegs(cleanSegs(rg.raw)) != rg.raw {
-				st.Class("reg:accepted-raw-needs-cleaning")
-			}
-		case !isValidMethod(rg.method):
-			st.Class("reg:rejected-method")
-		case len(rg.raw) == 0 || rg.raw[0] != '/':
-			st.Class("reg:rejected-no-leading-slash")
-		default:
-			st.Class("reg:rejected-duplicate")
-		}
+	// requests in serving order: by the number of registrations that precede them
+	order := make([]int, len(c.reqs))
+	for i := range order {
+		order[i] = i
 	}
-	for _, rq := range c.reqs {
+	afterOf := func(i int) int {
+		if c.after == nil {
+			return len(c.regs)
+		}
+		return c.after[i]
+	}
+	sort.SliceStable(order, func(a, b int) bool { return afterOf(order[a]) < afterOf(order[b]) })
+	next := 0
+	served := 0
+	serveOne := func(rq reqT) {
 		info := h.serve(m, rq, fail)
+		served++
 		switch info.exp.kind {
 		case outDispatch:
 			st.Class("req:dispatched")
@@ -826,6 +840,32 @@ func runCase(c caseT, st *verifkit.Stats, fail failFn) (table string, nt []strin
 		if info.exp.nmatch >= 2 || info.exp.deadEnd {
 			nt = append(nt, rq.method+" "+info.clean)
 		}
+	}
+	for i, rg := range c.regs {
+		for next < len(order) && afterOf(order[next]) <= i {
+			serveOne(c.reqs[order[next]])
+			next++
+		}
+		if served > 0 {
+			st.Class("reg:after-serving")
+		}
+		ok := h.register(m, i, rg, fail)
+		switch {
+		case ok:
+			st.Class("reg:accepted")
+			if joinSegs(cleanSegs(rg.raw)) != rg.raw {
+				st.Class("reg:accepted-raw-needs-cleaning")
+			}
+		case !isValidMethod(rg.method):
+			st.Class("reg:rejected-method")
+		case len(rg.raw) == 0 || rg.raw[0] != '/':
+			st.Class("reg:rejected-no-leading-slash")
+		default:
+			st.Class("reg:rejected-duplicate")
+		}
+	}
+	for ; next < len(order); next++ {
+		serveOne(c.reqs[order[next]])
 	}
 	sort.Strings(nt)
 	return m.table(), nt
